@@ -308,34 +308,38 @@ func c13Sweep(rec *c13Rec, t *c13Target) {
 		rec.Inconclusive(fmt.Sprintf("%s: the complete file does not open (fixture problem, not a truncation verdict): %v %s", t.name(), oerr, p))
 		return
 	}
-	full := make([]c13Ans, len(t.Keys))
+	if len(t.Keys) == 0 {
+		h.Close()
+		rec.Inconclusive(fmt.Sprintf("%s: no stored keys", t.name()))
+		return
+	}
+	keyIdx := c13KeySample(len(t.Keys), t.MaxKeys, rng)
+	if c13ReplayCase != nil && c13ReplayCase.Key >= 0 && c13ReplayCase.Key < len(t.Keys) {
+		keyIdx = []int{c13ReplayCase.Key}
+	}
+	full := make(map[int]c13Ans, len(keyIdx))
 	bad := 0
-	for k := range t.Keys {
+	for _, k := range keyIdx {
 		k := k
-		if p := c13Guard(func() { full[k] = h.Lookup(k) }); p != "" {
-			full[k] = c13Ans{c13Panic, p}
+		var a c13Ans
+		if p := c13Guard(func() { a = h.Lookup(k) }); p != "" {
+			a = c13Ans{c13Panic, p}
 		}
-		if full[k].Class != c13Val {
+		full[k] = a
+		if a.Class != c13Val {
 			bad++
 			if bad == 1 {
-				rec.Inconclusive(fmt.Sprintf("%s: the complete file does not answer stored key %s: %s (fixture problem; covered by C01/C05/C06)", t.name(), t.Keys[k], full[k]))
+				rec.Inconclusive(fmt.Sprintf("%s: the complete file does not answer stored key %s: %s (fixture problem; covered by C01/C05/C06)", t.name(), t.Keys[k], a))
 			}
 		}
 	}
 	h.Close()
-	if bad > 0 || len(t.Keys) == 0 {
-		if len(t.Keys) == 0 {
-			rec.Inconclusive(fmt.Sprintf("%s: no stored keys", t.name()))
-		}
+	if bad > 0 {
 		return
 	}
-	keyIdx := c13KeySample(len(t.Keys), t.MaxKeys, rng)
 	cuts, exhaustive := c13Cuts(t, rng, keyIdx)
 	if c13ReplayCase != nil {
 		cuts, exhaustive = []int64{c13ReplayCase.Cut}, false
-		if c13ReplayCase.Key >= 0 && c13ReplayCase.Key < len(t.Keys) {
-			keyIdx = []int{c13ReplayCase.Key}
-		}
 	}
 	rec.Count("targets", 1)
 	if exhaustive {
@@ -390,9 +394,12 @@ func c13Sweep(rec *c13Rec, t *c13Target) {
 				if got.Class == c13Val {
 					class = "different-value"
 				}
-				rec.violation(t.Site+"/"+class,
-					fmt.Sprintf("%s cut at %d of %d bytes (%s), key %s: complete file answers %s, truncated file answers %s (neither the same answer nor an error)",
-						t.name(), c, t.Size, region, t.Keys[k], full[k], got), mkReplay(c, k))
+				detail := fmt.Sprintf("%s cut at %d of %d bytes (%s), key %s: complete file answers %s, truncated file answers %s (neither the same answer nor an error)",
+					t.name(), c, t.Size, region, t.Keys[k], full[k], got)
+				if got.Class == c13Panic {
+					detail += "\n" + got.Val
+				}
+				rec.violation(t.Site+"/"+class, detail, mkReplay(c, k))
 			}
 		}
 		c13Guard(func() { h.Close() })
@@ -480,7 +487,7 @@ func TestVerifC13(t *testing.T) {
 	os.MkdirAll(root, 0o755)
 	defer os.RemoveAll(root)
 
-	parts := []string{"compact-index", "sig-exists", "slot-to-blocktime", "gsfa", "car", "epoch-index-files", "jsonrpc"}
+	parts := []string{"compact-index", "sig-exists", "slot-to-blocktime", "gsfa", "car", "epoch-index-files", "rpc"}
 	recs := map[string]*c13Rec{}
 	for _, p := range parts {
 		recs[p] = c13NewRec(p)
@@ -497,7 +504,7 @@ func TestVerifC13(t *testing.T) {
 	recs["car"].Rule("CAR file cut x every section CID through NewEpochFromConfig + Epoch.GetNodeByCid, local (carv2 reader) and remote (HTTP range reader); distinct as in compact-index")
 	recs["epoch-index-files"].Rule("each index file of a loaded epoch cut (others complete) through NewEpochFromConfig (mmap and remote HTTP) + FindOffsetAndSizeFromCid / FindCidFromSlot / FindCidFromSignature / sigExists.Has / GetBlocktime / gsfaReader.Get; distinct as in compact-index")
 
-	recs["jsonrpc"].Rule("one layer up: a server with two epochs loaded (one complete, one with exactly one file cut) asked over JSON-RPC (getTransaction, getBlock, getBlockTime, getSignaturesForAddress) for every archived key of the cut epoch; same response as with the complete file, or an error response other than not-found (-32009); distinct as in compact-index")
+	recs["rpc"].Rule("one layer up: a server with two epochs loaded (one complete, one with exactly one file cut) asked over JSON-RPC (getTransaction, getBlock, getBlockTime, getSignaturesForAddress) and gRPC (GetTransaction, GetBlock) for every archived key of the cut epoch; same response as with the complete file, or an error response other than not-found (JSON-RPC -32009 / null result, gRPC NotFound); distinct as in compact-index")
 
 	fxs, err := c13BuildFixtures(root, c13Seed())
 	if err != nil {
@@ -521,7 +528,7 @@ func TestVerifC13(t *testing.T) {
 
 	// expensive targets first so that the pool drains evenly
 	sort.SliceStable(targets, func(i, j int) bool { return c13Cost(targets[i]) > c13Cost(targets[j]) })
-	sem := make(chan struct{}, 6)
+	sem := make(chan struct{}, 8)
 	var wg sync.WaitGroup
 	for _, tg := range targets {
 		if c13ReplayCase != nil && (tg.Part != c13ReplayCase.Part || tg.Fixture != c13ReplayCase.Fixture || tg.Site != c13ReplayCase.Site) {
@@ -564,7 +571,7 @@ func c13Cost(t *c13Target) int64 {
 		w = 4
 	}
 	switch t.Part {
-	case "car", "epoch-index-files", "jsonrpc":
+	case "car", "epoch-index-files", "rpc":
 		w *= 400
 	case "slot-to-blocktime", "gsfa":
 		w = 100
